@@ -76,6 +76,7 @@ def alphabet(world):
         ('add_tag', 'a', 'A'), ('remove_tag', 'a', 'A'),
         ('set_tags', 'a', 'B'), ('clear_tags', 'a'),
         ('assign_new', 'a', 'A'), ('add_tag', 0, 'B'),
+        ('set_tags', 1, 'A'), ('add_tag', 1, 'B'), ('clear_tags', 1),
         ('materialize_defaults',),
         ('copy_with', 'a', 'CW'), ('assign', 'k0', 'AS'),
     ]
